@@ -675,7 +675,9 @@ def selftest():
 def jobs(tier, seed):
     q = tier == 'quick'
     out = []
-    plan = [('direct', 4, 280 if q else 3500), ('nested', 8, 600 if q else 7500), ('equiv', 4, 2800 if q else 35000)]
+    # measured cpu per shard (idle core): direct 41 ms/example (about 45 expressions), nested 11 ms/example (6), equiv 2.8 ms
+    # quick: longest shard about 23 s cpu (60 s target with margin); thorough: about 6 min
+    plan = [('direct', 4, 550 if q else 12000), ('nested', 8, 1200 if q else 30000), ('equiv', 4, 5500 if q else 140000)]
     for name, shards, n in plan:
         for i in range(shards):
             out.append({'check': name, 'shard': i, 'n': n, 'seed': derive_seed(seed, 'C08', name, i)})
